@@ -78,6 +78,20 @@ _FF_RESID = "for k in range(order):\n    diff_rhs_lhs -= derivative_factors[k] *
 _FF_DEFAULT_SYMS = "if all_variable_symbols is None:\n    all_variable_symbols = []"
 
 
+def _prologue_slice(body):
+    """_analysis: from `Config.reset()` up to and including the `simplify_expression` argument"""
+    out, on = [], False
+    for st in body:
+        u = ast.unparse(st)
+        if u == "Config.reset()":
+            on = True
+        if on:
+            out.append(st)
+        if u.startswith("if simplify_expression:"):
+            return out
+    raise ValueError("option handling of _analysis not found")
+
+
 GROUPS = {
     # ---------------------------------------------------------------------------------- C15
     "PySpikes": {
@@ -195,6 +209,101 @@ GROUPS = {
                     "`cnz`, `Pnz`); the four string concatenations appended to `update_expr_terms` are the constructors of `Propagator.Term` (an edit "
                     "of any of these strings makes the translation fail); `P_expr` collects the (row, col) pairs whose propagator symbol is defined; "
                     "re-parsing and `_custom_simplify_expr` of the joined string are denotation-preserving contracts (dropped)")),
+        ],
+    },
+    # ---------------------------------------------------------------------------------- C02
+    "PyNumeric": {
+        "imports": ["OdeVerif.Model.PyPrelude", "OdeVerif.Model.Shapes"],
+        "file": "odetoolbox/system_of_shapes.py",
+        "functions": [
+            (("SystemOfShapes", "reconstitute_expr"), Spec(
+                name="numericExpressions", header="{K : Type}",
+                params=[("n", "Nat"), ("A", "Nat → Nat → K"), ("b", "Nat → K"), ("c", "Nat → K"), ("printsAsOne", "Nat → Nat → Bool")],
+                types={"update_expr": "List (Nat × List (Shapes.NTerm K) × K × K)", "update_expr_terms": "List (Shapes.NTerm K)",
+                       "row": "Nat", "col": "Nat", "x": "Nat", "y": "Nat", "for:enumerate(self.x_)": "(Nat × Nat)"},
+                expr_map={"{}": "[]", "enumerate(self.x_)": "(Py.enumerateRange n)",
+                          "str(self.A_[row, col]) in ['1', '1.', '1.0']": "(printsAsOne row col = true)",
+                          "str(y)": "(Shapes.NTerm.var y)", "str(y) + ' * (' + str(self.A_[row, col]) + ')'": "(Shapes.NTerm.scaled y (A row col))"},
+                stmt_map={"if state_variables is None:\n    state_variables = []": [],
+                          "update_expr[str(x)] = ' + '.join(update_expr_terms) + ' + (' + str(self.b_[row]) + ') + (' + str(self.c_[row]) + ')'":
+                              [("update_expr", "(update_expr ++ [(x, update_expr_terms, b row, c row)])")],
+                          "update_expr[str(x)] = sympy.parsing.sympy_parser.parse_expr(update_expr[str(x)], global_dict=Shape._sympy_globals)": [],
+                          "for name, expr in update_expr.items():\n    update_expr[name] = _custom_simplify_expr(expr)\n    collect_syms = [sym for sym in update_expr[name].free_symbols if not (sym in state_variables or str(sym) in state_variables)]\n    update_expr[name] = sympy.collect(update_expr[name], collect_syms)": []},
+                result_type="List (Nat × List (Shapes.NTerm K) × K × K)",
+                doc="state variables are positions of `x`; entries of `A`, `b`, `c` are values of a type `K`; `printsAsOne row col` is the string test "
+                    "`str(A[row, col]) in [\"1\", \"1.\", \"1.0\"]` (contract: then the entry is 1); the two string forms of a summand are the constructors of "
+                    "`Shapes.NTerm`; the joined string of a row is the triple (terms, b, c); re-parsing, `_custom_simplify_expr` and `sympy.collect` are "
+                    "denotation-preserving contracts (dropped)")),
+        ],
+    },
+    "PySplit": {
+        "imports": ["OdeVerif.Model.PyPrelude", "OdeVerif.Model.Terms"],
+        "file": "odetoolbox/shapes.py",
+        "functions": [
+            (("Shape", "split_lin_inhom_nonlin"), Spec(
+                name="splitLinInhomNonlin", header="",
+                params=[("params", "List Terms.Sym"), ("x", "List Terms.Sym"), ("terms", "List Terms.Term")],
+                types={"lin_factors": "List (Nat × Terms.Term)", "inhom_term": "List Terms.Term", "nonlin_term": "List Terms.Term", "is_lin": "Bool",
+                       "term": "Terms.Term", "j": "Nat", "sym": "Terms.Sym", "for:terms": "Terms.Term", "for:enumerate(x)": "(Nat × Terms.Sym)"},
+                expr_map={"enumerate(x)": "(Py.enumerate x)",
+                          "is_constant_term(term, parameters=parameters)": "(Terms.isConstant params term = true)",
+                          "is_constant_term(term / sym, parameters=parameters)": "(Terms.isConstant params (Terms.divSym term sym) = true)",
+                          "not is_lin": "(is_lin = false)", "(lin_factors, inhom_term, nonlin_term)": "(lin_factors, inhom_term, nonlin_term)"},
+                stmt_map={"assert all([_is_sympy_type(sym) for sym in x])": [],
+                          "if parameters is None:\n    parameters = {}": [],
+                          "lin_factors = sympy.zeros(len(x), 1)": [("lin_factors", "[]")],
+                          "inhom_term = sympy.Float(0)": [("inhom_term", "[]")], "nonlin_term = sympy.Float(0)": [("nonlin_term", "[]")],
+                          "expr = expr.expand()": [], "if expr.is_Add:\n    terms = expr.args\nelse:\n    terms = [expr]": [],
+                          "inhom_term += term": [("inhom_term", "(inhom_term ++ [term])")],
+                          "lin_factors[j] += term / sym": [("lin_factors", "(lin_factors ++ [(j, Terms.divSym term sym)])")],
+                          "nonlin_term += term": [("nonlin_term", "(nonlin_term ++ [term])")]},
+                drop_calls=["logging.debug"], result_type="(List (Nat × Terms.Term) × List Terms.Term × List Terms.Term)",
+                doc="`terms` are the summands of `expr.expand()` (SymPy contract), each represented by the symbols it contains (`Terms.Term`); the three "
+                    "accumulators are the lists of terms added to them (`lin_factors[j] += term / sym` is recorded as `(j, term / sym)`); "
+                    "`is_constant_term` and the exponent bookkeeping of `term / sym` are `Terms.isConstant` / `Terms.divSym`")),
+        ],
+    },
+    # ---------------------------------------------------------------------------------- C11
+    "PySingularity": {
+        "imports": ["OdeVerif.Model.PyPrelude", "OdeVerif.Model.Singularity"],
+        "file": "odetoolbox/singularity_detection.py",
+        "functions": [
+            (("SingularityDetection", "_generate_singularity_conditions"), Spec(
+                name="generateSingularityConditions", header="",
+                params=[("solve", "Singularity.Ex → List Singularity.Cond"), ("A", "List Singularity.Ex")],
+                types={"conditions": "List Singularity.Cond", "cond": "List Singularity.Cond", "denom": "Singularity.Ex", "expr": "Singularity.Ex",
+                       "subexpr": "Singularity.Ex", "for:sympy.flatten(A)": "Singularity.Ex", "for:sympy.preorder_traversal(expr)": "Singularity.Ex"},
+                expr_map={"sympy.flatten(A)": "A", "sympy.preorder_traversal(expr)": "(Singularity.preorder expr)",
+                          "isinstance(subexpr, sympy.Pow) and subexpr.args[1] < 0": "(Singularity.isNegPow subexpr = true)",
+                          "subexpr.args[0]": "(Singularity.powBase subexpr)",
+                          "sympy.solve(denom, denom.free_symbols, dict=True)": "(solve denom)",
+                          "cond not in conditions": "True"},
+                result_type="List Singularity.Cond",
+                doc="expression trees are `Singularity.Ex`; `sympy.solve(denom, denom.free_symbols, dict=True)` is the oracle `solve` (a list of "
+                    "condition identifiers); `cond not in conditions` compares a *list* of dictionaries with the dictionaries collected so far and is "
+                    "therefore always true")),
+            (("SingularityDetection", "_flatten_conditions"), Spec(
+                name="flattenConditions", header="", params=[("cond", "List Singularity.Cond")],
+                types={"lst": "List Singularity.Cond", "i": "Nat", "for:range(len(cond))": "Nat"},
+                expr_map={"range(len(cond))": "(List.range cond.length)"},
+                index_map={"cond": "cond.getD {k} 0"}, result_type="List Singularity.Cond",
+                doc="first occurrences, in order")),
+            (("SingularityDetection", "_filter_valid_conditions"), Spec(
+                name="filterValidConditions", header="", params=[("definedA", "Singularity.Cond → Bool"), ("cond", "List Singularity.Cond")],
+                types={"filt_cond": "List Singularity.Cond", "i": "Nat", "for:range(len(cond))": "Nat"},
+                expr_map={"range(len(cond))": "(List.range cond.length)",
+                          "SingularityDetection._is_matrix_defined_under_substitution(A, cond[i])": "(definedA (cond.getD i 0) = true)"},
+                index_map={"cond": "cond.getD {k} 0"}, result_type="List Singularity.Cond",
+                doc="`_is_matrix_defined_under_substitution(A, c)` is the oracle `definedA c`")),
+            (("SingularityDetection", "find_singularities"), Spec(
+                name="findSingularities", header="",
+                params=[("solve", "Singularity.Ex → List Singularity.Cond"), ("definedA", "Singularity.Cond → Bool"), ("P", "List Singularity.Ex")],
+                types={"conditions": "List Singularity.Cond"}, try_passthrough=True,
+                expr_map={"SingularityDetection._generate_singularity_conditions(P)": "(generateSingularityConditions solve P)",
+                          "SingularityDetection._flatten_conditions(conditions)": "(flattenConditions conditions)",
+                          "SingularityDetection._filter_valid_conditions(conditions, A)": "(filterValidConditions definedA conditions)"},
+                result_type="List Singularity.Cond",
+                doc="the three stages in order (an exception inside them is re-raised as SingularityDetectionException: outside the model)")),
         ],
     },
     # ---------------------------------------------------------------------------------- C10
@@ -422,10 +531,26 @@ GROUPS = {
                 expr_map={"'options' in indict.keys()": "(options.isSome = true)", "indict['options'].items()": "(options.getD [])",
                           "key in Config.config.keys()": "(store.hasKey key = true)"},
                 index_set={"Config.config": ("store", "(Config.Store.set {old} {k} {v})")},
-                stmt_map={"logging.info('Processing global options...')": []},
-                asserts="error", assert_exit="(store, false)", end_return="(store, true)",
-                result_type="(Config.Store × Bool)",
-                doc="`Config.config` is the threaded `store`; a failing `assert` leaves with `(store, false)`")),
+                drop_calls=["logging.info"],
+                asserts="except", assert_error="store", error_type="Config.Store", end_return="store",
+                result_type="Config.Store",
+                doc="`Config.config` is the threaded `store`; a failing `assert` (unknown option key) leaves with `.error store`: the keys "
+                    "written before it stay written")),
+            (("_analysis",), Spec(
+                name="analysisPrologue", header="",
+                params=[("store", "Config.Store"), ("hasDynamics", "Bool"), ("options", "Option (List (String × String))"), ("simplify", "Option String")],
+                expr_map={"'dynamics' not in indict": "(hasDynamics = false)",
+                          "([], SystemOfShapes.from_shapes([]), [])": "(store, Config.Prologue.empty)"},
+                stmt_map={"Config.reset()": [("store", "Config.defaults")],
+                          "if simplify_expression:\n    Config.config['simplify_expression'] = simplify_expression":
+                              [("store", "(match simplify with | some e => Config.Store.set store \"simplify_expression\" e | none => store)")]},
+                bind_map={"_read_global_config(indict)": ("store", "readGlobalConfig store options")},
+                drop_calls=["logging.info", "_init_logging"],
+                asserts="except", assert_error="store", error_type="Config.Store",
+                body_filter=_prologue_slice, end_return="(store, Config.Prologue.proceed)", result_type="Config.Store × Config.Prologue",
+                doc="the option handling at the start of `_analysis`, in source order: `Config.reset()`, the early return for an input without "
+                    "`dynamics`, `_read_global_config` (an unknown key leaves with `.error store`), the `simplify_expression` argument (`None` or a "
+                    "non-empty string: `simplify`)")),
         ],
     },
 }
